@@ -48,13 +48,13 @@ PROPS = {
             "sections": [hist("hist", ["sort"]),
                          {"section": "sortadv", "quick": 300, "thorough": 3000, "cover_ops": {"SA"}}]},
     "C04": {"lean": ["QF.Props.C04"], "sections": [hist("hist", ["groupagg", "groupframes"])]},
-    "C05": {"lean": ["QF.Props.C04"], "extra_ns": ["QF.Props.C04"], "sections": [hist("hist", ["distinct"])]},
+    "C05": {"lean": ["QF.Props.C05", "QF.Props.C04"], "extra_ns": ["QF.Props.C04"], "sections": [hist("hist", ["distinct"])]},
     "C06": {"lean": ["QF.Props.C06"], "sections": [hist("hist", ["apply", "fapply", "rownums"])]},
-    "C07": {"lean": ["QF.Props.C06"], "extra_ns": ["QF.Props.C06"], "sections": [hist("hist", ["eval"])]},
+    "C07": {"lean": ["QF.Props.C07", "QF.Props.C06"], "extra_ns": ["QF.Props.C06"], "sections": [hist("hist", ["eval"])]},
     "C08": {"lean": ["QF.Props.C08"],
             "sections": [hist("hist", ["select", "drop", "slice", "copy"], cover=["new", "select", "drop", "slice", "copy"]),
                          {"section": "hist", "tag": "hist-new", "opt": "newonly=1", "quick": 150, "thorough": 1500, "cover_ops": {"new"}}]},
-    "C09": {"lean": ["QF.Props.C06"], "extra_ns": ["QF.Props.C06"],
+    "C09": {"lean": ["QF.Props.C09", "QF.Props.C06"], "extra_ns": ["QF.Props.C06"],
             "sections": [dict(hist("hist", ["equals", "rebuild", "rebuild", "sort", "sort", "filter", "slice"], quick=250), cover_ops=None)]},
     "C11": {"lean": ["QF.Props.C11"],
             "sections": [{"section": "conc", "race": True, "quick": 150, "thorough": 2000, "cover_ops": {"CC"}}],
@@ -66,17 +66,17 @@ PROPS = {
                          {"section": "csvread", "quick": 300, "thorough": 3000, "cover_ops": {"CV"}}],
             "rule": "cases = (document, read schedule) pairs read by the real fastcsv reader / ReadCSV and replayed through the L0 mirror (exact rows, errors, stale bytes) "
                     "and the RFC 4180 scanner (what the document denotes); distinct by transcript line; every generated document has quotes, delimiters or line breaks in cells with probability > 1/2"},
-    "C16": {"lean": ["QF.Props.C16"],
+    "C16": {"lean": ["QF.Props.C16", "QF.Props.C16Tables"],
             "sections": [{"section": "ryu", "quick": 300, "thorough": 5000, "cover_ops": {"F"}}],
             "open_goals": ["Ryu precision lemma (the truncated 121/122-bit multipliers give the exact floors for all 2^64 inputs) is not proved; the unbounded claim '= strconv text for every float64' is therefore tested, not proved",
                            "mirror of float64ToDecimal over the extracted tables"],
             "rule": "cases = (float64 bit pattern, buffer state); each output is checked against the Lean definition of shortest round-trip text (exact big-number arithmetic, QF.Num.isShortestRoundTrip) and against strconv; "
                     "generator: special values, all exponents x boundary mantissas, exact integers, powers of ten +-1ulp, short decimals, subnormals, random bits; distinct by (bits, prefix, spare)"},
-    "C13": {"lean": ["QF.Props.C12"], "extra_ns": ["QF.Props.C12"],
+    "C13": {"lean": ["QF.Props.C13", "QF.Props.C12"], "extra_ns": ["QF.Props.C12"],
             "sections": [dict(hist("hist", ["tocsv", "tocsv", "sort", "filter", "apply"], quick=250), cover_ops={"tocsv"})],
             "rule": "cases = ToCSV of a derived frame with random Header/Columns options; the bytes are parsed with the spec's RFC 4180 scanner and must denote the frame cell by cell "
                     "(floats: the text must parse back to the identical bits by exact arithmetic), then ReadCSV of those bytes with the types declared must give the expected frame (both EmptyNull settings)"},
-    "C14": {"lean": ["QF.Props.C16"], "extra_ns": ["QF.Props.C16"],
+    "C14": {"lean": ["QF.Props.C14", "QF.Props.C16"], "extra_ns": ["QF.Props.C16"],
             "sections": [dict(hist("hist", ["tojson", "tojson", "sort", "filter", "apply"], quick=250), cover_ops={"tojson"})],
             "rule": "cases = ToJSON of a derived frame; the bytes are parsed with the spec's RFC 8259 parser (validity) and every record must denote its row (ints exactly, floats parsing back to identical bits, "
                     "NaN/null as null, strings and names decoded with invalid bytes as U+FFFD); ReadJSON of the bytes must reproduce the frame where the property promises it"},
@@ -95,14 +95,14 @@ PROPS = {
             "sections": [{"section": "like", "quick": 1500, "thorough": 20000, "cover_ops": {"M", "ME"}}],
             "rule": "cases = (pattern, case flag, cells) run through the real NewMatcher/Matches/ToUpper and through Filter on a string column and an enum column with the same cells; "
                     "compared with the documented rule and the ToUpper mirror; unicode.ToUpper and regexp matching are oracle annotations from the Go standard library"},
-    "C15": {"lean": ["QF.Props.C12"], "extra_ns": ["QF.Props.C12"],
+    "C15": {"lean": ["QF.Props.C15", "QF.Props.C12"], "extra_ns": ["QF.Props.C12"],
             "sections": [dict(hist("hist", ["wfault"], quick=60, thorough=400), tag="hist-wfault", cover_ops=None, owns=lambda m: m["op"] == "wfault"),
                          dict(hist("hist", ["tosql", "tosql", "sort"], quick=60, thorough=400), tag="hist-sqlfault", opt="sqlfaults=1," + mix("tosql", "tosql", "sort"), cover_ops=None, owns=lambda m: m["op"] == "sqlfault"),
                          {"section": "sqlread", "tag": "sqlreadfaults", "opt": "faults=1", "quick": 300, "thorough": 3000, "cover_ops": {"SR"}},
                          {"section": "csvraw", "tag": "csvrawfaults", "opt": "faults=1", "quick": 60, "thorough": 600, "cover_ops": {"C"}},
                          {"section": "csvread", "tag": "csvreadfaults", "opt": "faults=1", "quick": 400, "thorough": 4000, "cover_ops": {"CV"}}],
             "rule": "cases = (document, schedule, failing call number); csvraw enumerates EVERY call number of the chosen schedule per document; distinct by transcript line"},
-    "C10": {"lean": ["QF.Props.C06"], "extra_ns": ["QF.Props.C06"], "sections": [dict(hist("hist", []), cover_ops=None)]},
+    "C10": {"lean": ["QF.Props.C10", "QF.Props.C06"], "extra_ns": ["QF.Props.C06"], "sections": [dict(hist("hist", []), cover_ops=None)]},
 }
 
 NOT_APPLICABLE = {}
